@@ -135,6 +135,13 @@ func (a *Aggregator[VR, GE, S, M]) Aggregate(
 				base.IdentifiableAbortPartyIDTag, sender,
 			)
 		}
+		// A partial signature arrives over the wire: a CBOR map that lacks e, r or s decodes into nil
+		// components, which must be refused here rather than dereferenced below.
+		if utils.IsNil(psig.Sig.E) || utils.IsNil(psig.Sig.R) || utils.IsNil(psig.Sig.S) {
+			return nil, ErrNilArgument.WithMessage("partial signature from sender %d has a missing component", sender).WithTag(
+				base.IdentifiableAbortPartyIDTag, sender,
+			)
+		}
 	}
 
 	if a.IsCosigning() {
